@@ -120,6 +120,10 @@ TabHash == SumSeq([t \in 1..Len(tab) |->
                  + SumSeq([j \in 1..Len(tab[t].fields) |-> (j * 101 + t) * FieldCode(tab[t].fields[j])], 1))], 1)
            + SumSeq([j \in 1..Len(args) |-> j * 13 * ((IF args[j].legacy THEN 5 ELSE 0) + FieldCode(args[j]))], 1)
 
+(* every table on which the modelled mechanism and the reference disagree (used with Repaired = FALSE and no other invariant: *)
+(* the order-sensitive tables - the ones on which a caching slip of any kind is most likely to show)                             *)
+EmitDisagreeing == (phase = "done" /\ marked # Expected \o Expected) =>
+           PrintT(<<"CASE", ToJson([tab |-> tab, args |-> args, mech |-> marked, ref |-> Expected])>>)
 Emit == (phase = "done" /\ TabHash % EmitMod = EmitRes) =>
            PrintT(<<"CASE", ToJson([tab |-> tab, args |-> args, mech |-> marked, ref |-> Expected])>>)
 =============================================================================
